@@ -73,6 +73,10 @@ def run(ctx):
                 limit = r.choice(["", "", " limit 1", " limit 3", " limit 50"])
                 arcw = r.choice(["arc", "archives", "ARC"])
                 trav = r.choice(["", " dfs"])
+                # every third query has a depth window: an archive on the last level of the window is inside it, members and all
+                maxd = r.choice([0, 0, 1, 2, 3])
+                if maxd:
+                    trav += " %s %d" % (r.choice(["depth", "maxdepth"]), maxd)
                 base = "select %s from . @ARC@%s%s%s" % (", ".join(cols), trav, where, order)
                 q = base.replace("@ARC@", arcw) + limit + " into list"
                 ctx.case((t, q))
@@ -114,7 +118,7 @@ def run(ctx):
                     want = []
                     for n in snap.nodes:
                         z = n["facts"].get("zip")
-                        if z:
+                        if z and (maxd == 0 or n["depth"] <= maxd):
                             for mem in z:
                                 shown = "./" + n["rel"] if "path" in cols else n["name"]
                                 want.append(("[%s] %s" % (shown, mem["name"])).encode())
